@@ -280,3 +280,32 @@
        (= (select NN n) (cnt (tv n))) (= (select NB n) (sumb (tv n)))
        (or (not (= (select IITEM (|node.item@| n)) 0)) (not (emptyLoc O L (select ILOC (|node.item@| n)))))))
 ;@spec nodeInv smt=nodeInv args=Int res=Bool heap=node.numNodes,node.numBytes,itemLoc.loc,itemLoc.item,ploc.Offset,ploc.Length ghost=tvs,ias
+; ===========================================================================
+; Visitor invariants (higher-order visitor contracts, first-order encoding). vinv(C, n, stop, f, z): the
+; invariant of the visitor function value f, with logical parameter z, holds in the state whose scalar cells
+; are C, whose visit log has n entries and whose stop flag is stop. It is uninterpreted: a closure whose
+; contract has a `tracks` clause defines it for that closure (axiom emitted where the closure is made and in
+; the closure's own verification); for any other function value it is arbitrary. The function-type contract
+; of visitors says every call preserves it (for every z), so a function that only runs visitor calls and
+; touches no cell its visitor can have captured preserves it too.
+(declare-fun vinv ((Array Int Int) Int Bool Int Int) Bool)
+;@spec vinv smt=vinv args=Int,Int res=Bool heap=cell.Int ghost=vis.n,vis.stop
+; footprint: a function value's invariant can only depend on cells that existed when the value was made
+(assert (forall ((C (Array Int Int)) (a Int) (v Int) (n Int) (s Bool) (f Int) (z Int))
+  (! (=> (>= (birth a) (birth f)) (= (vinv (store C a v) n s f z) (vinv C n s f z)))
+     :pattern ((vinv (store C a v) n s f z)) :pattern ((vinv C n s f z) (store C a v)))))
+; enumerates(K, lo, hi, t): the log segment K[lo..hi) is strictly increasing, holds only keys of t and holds
+; every key of t. Only the introduction direction is given; LEMMA L3 (proved in Lean, /verif/lean/LemmaL.lean)
+; says such a segment of a search tree has exactly cnt(t) entries.
+(declare-fun enumerates ((Array Int Int) Int Int Tree) Bool)
+;@spec enumerates smt=enumerates args=(Array_Int_Int),Int,Int,Tree res=Bool
+(assert (forall ((K (Array Int Int)) (lo Int) (hi Int) (t Tree))
+  (! (=> (and (<= lo hi)
+              (forall ((i Int)) (! (=> (and (<= lo i) (< i hi)) (mem (select K i) t)) :pattern ((select K i))))
+              (forall ((i Int) (j Int)) (! (=> (and (<= lo i) (< i j) (< j hi)) (< (select K i) (select K j))) :pattern ((select K i) (select K j))))
+              (forall ((k Int)) (! (=> (mem k t) (exists ((i Int)) (and (<= lo i) (< i hi) (= (select K i) k)))) :pattern ((mem k t)))))
+         (enumerates K lo hi t))
+     :pattern ((enumerates K lo hi t)))))
+(assert (forall ((K (Array Int Int)) (lo Int) (hi Int) (t Tree))
+  (! (=> (and (enumerates K lo hi t) (bst t)) (= (- hi lo) (cnt t)))
+     :pattern ((enumerates K lo hi t)))))
